@@ -1,37 +1,37 @@
-\* generated by lib/slices.py from slice 'alias_early' - do not edit
+\* generated by lib/slices.py from slice 'gate_late' - do not edit
 SPECIFICATION Spec
 VIEW view
 CHECK_DEADLOCK FALSE
 PROPERTY NoViolation
 ACTION_CONSTRAINT PrintEdge
 CONSTANTS
- Roles = {"client", "server"}
- Vers = {"v50"}
+ Roles = {"any", "server"}
+ Vers = {"v311", "v50"}
  Idws = {16}
  CheckProps = {"C05", "C06", "C07", "C08", "C10", "C11", "C12", "C13", "C14", "C15", "C16", "C17", "C19"}
  OptSets = {{}}
  RespTimeouts = {0}
  MaxConns = 1
  MaxHeld = 1
- MaxUsed = 2
- AppKinds = {"publish"}
- PeerKinds = {"puback"}
- QosSet = {1}
- Topics = {"", "t1"}
- Aliases = {0, 1}
+ MaxUsed = 1
+ AppKinds = {"auth", "disconnect", "pingresp", "puback", "publish"}
+ PeerKinds = {}
+ QosSet = {0, 1}
+ Topics = {"t1"}
+ Aliases = {0}
  InPids = {1}
  ExtraPids = {9}
  Rcs = {0}
  Cleans = {FALSE}
  KAs = {0}
  ConnRMs = {99999}
- ConnTAMs = {1}
+ ConnTAMs = {99999}
  ConnMPSs = {99999}
  ConnSEIs = {10}
  SPs = {FALSE}
- ConnackRcs = {0}
+ ConnackRcs = {0, 135}
  AckRMs = {99999}
- AckTAMs = {1}
+ AckTAMs = {99999}
  AckMPSs = {99999}
  AckSEIs = {99999}
  SKAs = {99999}
@@ -45,7 +45,7 @@ CONSTANTS
  Crash = FALSE
  Garbage = FALSE
  BadFrames = {}
- SendWhileDisc = TRUE
+ SendWhileDisc = FALSE
  PeerWhileDisc = FALSE
  LateFrames = FALSE
  CrossVersion = FALSE
@@ -53,5 +53,5 @@ CONSTANTS
  Regulate_ = FALSE
  OptFlips = {}
  FreeIdSends = FALSE
- LateSends = FALSE
+ LateSends = TRUE
  Msgs = {"m1"}
